@@ -944,3 +944,151 @@ Qed.
 Lemma names_parse : forall t path,
   build_pxr_tree (pair_name t) [] = Some (dec t [] 0) /\ parse_ad (ad_letters path ++ "R")%string = Some path.
 Proof. intros. split; [apply build_pxr_pair_name | apply parse_ad_letters]. Qed.
+
+(* ============================================================================================== *)
+(* classification: every name [expand] accepts belongs to one of the families of the theorems      *)
+
+Definition fixed_list : list string :=
+  ["FAIL"; "ASSERT"; "ASSERT_NONE"; "ASSERT_SOME"; "ASSERT_LEFT"; "ASSERT_RIGHT"; "IF_SOME"; "IF_RIGHT"]%string.
+Definition op_prefixes : list string := ["CMP"; "IFCMP"; "IF"; "ASSERT_CMP"; "ASSERT_"]%string.
+
+Inductive macro_name : string -> Prop :=
+| MN_fixed n : In n fixed_list -> macro_name n
+| MN_op p nm t : In p op_prefixes -> In (nm, t) cmp_ops -> macro_name (p ++ nm)%string
+| MN_dixp n : macro_name (dixp_name (S (S n)))
+| MN_duxp n : macro_name (duxp_name (S (S n)))
+| MN_pxr n : is_pxr_name n = true -> macro_name n                    (* ^P[PAI]{3,}R$ *)
+| MN_unpxr n : is_pxr_name n = true -> macro_name ("UN" ++ n)%string   (* ^UN(P[PAI]{3,}R)$ *)
+| MN_cxr a b p : macro_name (cxr_name (a :: b :: p))
+| MN_set a p : macro_name (set_cxr_name (a :: p))
+| MN_map a p : macro_name (map_cxr_name (a :: p)).
+
+Lemma strip_some : forall p s r, strip p s = Some r -> s = (p ++ r)%string.
+Proof.
+  induction p as [|a p IH]; intros s r H; simpl in H.
+  - injection H as <-. reflexivity.
+  - destruct s as [|b s]; [discriminate|].
+    destruct (Ascii.eqb a b) eqn:E; [|discriminate].
+    apply Ascii.eqb_eq in E. subst b. simpl. f_equal. apply IH. assumption.
+Qed.
+
+Lemma assoc_in : forall k l v, assoc k l = Some v -> In (k, v) l.
+Proof.
+  induction l as [|[k' v'] l IH]; intros v H; simpl in H; [discriminate|].
+  destruct (String.eqb k k') eqn:E.
+  - apply String.eqb_eq in E. subst k'. injection H as <-. left. reflexivity.
+  - right. apply IH. assumption.
+Qed.
+
+Lemma run_spec : forall c s n rest, run c s = (n, rest) -> s = (rep (String c EmptyString) n ++ rest)%string.
+Proof.
+  induction s as [|a s IH]; intros n rest H; simpl in H.
+  - injection H as <- <-. reflexivity.
+  - destruct (Ascii.eqb a c) eqn:E.
+    + destruct (run c s) as [m r] eqn:R. injection H as <- <-.
+      apply Ascii.eqb_eq in E. subst a. simpl. f_equal. apply IH. reflexivity.
+    + injection H as <- <-. reflexivity.
+Qed.
+
+Lemma parse_ad_spec : forall s path, parse_ad s = Some path -> s = (ad_letters path ++ "R")%string.
+Proof.
+  induction s as [|a s IH]; intros path H; simpl in H; [discriminate|].
+  destruct (Ascii.eqb a "R") eqn:ER.
+  - apply Ascii.eqb_eq in ER. subst a. destruct s; [|discriminate]. injection H as <-. reflexivity.
+  - destruct (Ascii.eqb a "A") eqn:EA.
+    + apply Ascii.eqb_eq in EA. subst a. destruct (parse_ad s) as [p|] eqn:P; [|discriminate].
+      injection H as <-. simpl. f_equal. apply IH. reflexivity.
+    + destruct (Ascii.eqb a "D") eqn:ED; [|discriminate].
+      apply Ascii.eqb_eq in ED. subst a. destruct (parse_ad s) as [p|] eqn:P; [|discriminate].
+      injection H as <-. simpl. f_equal. apply IH. reflexivity.
+Qed.
+
+Lemma m_op_inv : forall pre h name (annots : list bytes) (args : list node) r, In pre op_prefixes ->
+  m_op pre h name annots args = Some r -> macro_name name.
+Proof.
+  intros pre h name annots args r Hp H. unfold m_op in H.
+  destruct (strip pre name) as [rest|] eqn:S; [|discriminate].
+  destruct (op_tag rest) as [t|] eqn:O; [|discriminate].
+  apply strip_some in S. subst name. apply (MN_op pre rest t Hp). apply assoc_in. exact O.
+Qed.
+
+Lemma m_fixed_inv : forall name (annots : list bytes) (args : list node) r,
+  m_fixed name annots args = Some r -> macro_name name.
+Proof.
+  intros name annots args r H. unfold m_fixed in H.
+  repeat match type of H with
+         | (if String.eqb name ?k then _ else _) = _ =>
+             destruct (String.eqb name k) eqn:E;
+             [apply String.eqb_eq in E; subst name; apply MN_fixed; simpl; tauto | clear E]
+         end.
+  discriminate.
+Qed.
+
+Lemma m_dxp_inv : forall name (annots : list bytes) (args : list node) r,
+  m_dxp name annots args = Some r -> macro_name name.
+Proof.
+  intros name annots args r H. unfold m_dxp in H.
+  destruct name as [|c rest]; [discriminate|].
+  destruct (Ascii.eqb c "D") eqn:EC.
+  2:{ destruct c as [[] [] [] [] [] [] [] []]; try discriminate EC; discriminate H. }
+  apply Ascii.eqb_eq in EC. subst c.
+  destruct (run "I" rest) as [ni ri] eqn:RI.
+  destruct ((2 <=? ni) && String.eqb ri "P") eqn:EI.
+  - apply andb_true_iff in EI. destruct EI as [E1 E2].
+    apply Nat.leb_le in E1. apply String.eqb_eq in E2. subst ri.
+    apply run_spec in RI. subst rest.
+    destruct ni as [|[|n]]; try lia. apply (MN_dixp n).
+  - destruct (run "U" rest) as [nu ru] eqn:RU.
+    destruct ((2 <=? nu) && String.eqb ru "P") eqn:EU; [|discriminate].
+    apply andb_true_iff in EU. destruct EU as [E1 E2].
+    apply Nat.leb_le in E1. apply String.eqb_eq in E2. subst ru.
+    apply run_spec in RU. subst rest.
+    destruct nu as [|[|n]]; try lia. apply (MN_duxp n).
+Qed.
+
+Lemma m_pxr_inv : forall name (annots : list bytes) (args : list node) r,
+  m_pxr name annots args = Some r -> macro_name name.
+Proof.
+  intros name annots args r H. unfold m_pxr in H.
+  destruct (is_pxr_name name) eqn:E; [apply MN_pxr; assumption|].
+  destruct (strip "UN" name) as [rest|] eqn:S; [|discriminate].
+  destruct (is_pxr_name rest) eqn:E2; [|discriminate].
+  apply strip_some in S. subst name. apply MN_unpxr. assumption.
+Qed.
+
+Lemma m_cxr_inv : forall name (annots : list bytes) (args : list node) r,
+  m_cxr name annots args = Some r -> macro_name name.
+Proof.
+  intros name annots args r H. unfold m_cxr in H.
+  destruct (strip "C" name) as [rest|] eqn:S.
+  - destruct (parse_ad rest) as [path|] eqn:P; [|discriminate].
+    destruct (2 <=? List.length path) eqn:L2; [|discriminate].
+    apply strip_some in S. apply parse_ad_spec in P. subst rest name.
+    apply Nat.leb_le in L2. destruct path as [|a [|b p]]; simpl in L2; try lia. apply (MN_cxr a b p).
+  - destruct (strip "SET_C" name) as [rest|] eqn:S2.
+    + destruct (parse_ad rest) as [path|] eqn:P; [|discriminate].
+      destruct (1 <=? List.length path) eqn:L1; [|discriminate].
+      apply strip_some in S2. apply parse_ad_spec in P. subst rest name.
+      apply Nat.leb_le in L1. destruct path as [|a p]; simpl in L1; try lia. apply (MN_set a p).
+    + destruct (strip "MAP_C" name) as [rest|] eqn:S3; [|discriminate].
+      destruct (parse_ad rest) as [path|] eqn:P; [|discriminate].
+      destruct (1 <=? List.length path) eqn:L1; [|discriminate].
+      apply strip_some in S3. apply parse_ad_spec in P. subst rest name.
+      apply Nat.leb_le in L1. destruct path as [|a p]; simpl in L1; try lia. apply (MN_map a p).
+Qed.
+
+Lemma expand_classified : forall name (annots : list bytes) (args : list node) code,
+  expand name annots args = Some code -> macro_name name.
+Proof.
+  intros name annots args code H. unfold expand in H.
+  destruct (m_op "CMP" expand_cmpx name annots args) eqn:E1; [eapply m_op_inv; [|exact E1]; simpl; tauto|].
+  destruct (m_op "IFCMP" expand_ifcmpx name annots args) eqn:E2; [eapply m_op_inv; [|exact E2]; simpl; tauto|].
+  destruct (m_op "IF" expand_ifx name annots args) eqn:E3; [eapply m_op_inv; [|exact E3]; simpl; tauto|].
+  destruct (m_fixed name annots args) eqn:E4; [eapply m_fixed_inv; exact E4|].
+  destruct (m_op "ASSERT_CMP" h_assert_cmpx name annots args) eqn:E5; [eapply m_op_inv; [|exact E5]; simpl; tauto|].
+  destruct (m_op "ASSERT_" h_assert_x name annots args) eqn:E6; [eapply m_op_inv; [|exact E6]; simpl; tauto|].
+  destruct (m_dxp name annots args) eqn:E7; [eapply m_dxp_inv; exact E7|].
+  destruct (m_pxr name annots args) eqn:E8; [eapply m_pxr_inv; exact E8|].
+  destruct (m_cxr name annots args) eqn:E9; [eapply m_cxr_inv; exact E9|].
+  simpl in H. discriminate.
+Qed.
